@@ -240,6 +240,9 @@ fn harnesses(tier: Tier) -> Vec<Harness> {
         for k1 in kinds {
             for y0 in 0..2u8 {
                 for y1 in 0..2u8 {
+                    if tier == Tier::Quick && y0 != y1 {
+                        continue; // quick: yields (0,0) and (1,1) only
+                    }
                     v.push(Harness {
                         name: format!("2same-{k0:?}{y0}-{k1:?}{y1}"),
                         callers: vec![c(0, k0, y0), c(0, k1, y1)],
